@@ -8,6 +8,7 @@ package main
 
 import (
 	"fmt"
+	"os"
 	"strings"
 
 	"golang.org/x/tools/go/ssa"
@@ -221,6 +222,9 @@ func (e *Exec) buildSummary(fn *ssa.Function, args []Value, bind []Value) (sum *
 							return
 						}
 						aborted = true
+						if os.Getenv("SYMGO_MERGEDEBUG") != "" {
+							fmt.Fprintf(os.Stderr, "merge of %s aborted: %v\n", fn.String(), r)
+						}
 					default:
 						panic(r)
 					}
